@@ -856,8 +856,11 @@ func execCase(run *kit.Run, c Case, verbose, emit bool) int {
 	if emit {
 		run.Count("tmpl/" + c.Tmpl)
 		run.Count(fmt.Sprintf("events/%s", bucket(len(evs))))
+		// the log goes to the model unless the run was aborted or a direct oracle already failed on it
+		// (that case is reported through oracle.jsonl with its replay; a rejected log is also the most
+		// expensive input of the model's search)
 		term := ""
-		if !x.aborted {
+		if !x.aborted && len(vs) == 0 {
 			term = coqCase(c, evs)
 		}
 		run.Case(c.ID, c, term, fmt.Sprintf("%s|%v|%d|%s", c.Tmpl, c.Out, c.RunMode, coqEvents(evs)), true)
